@@ -1243,6 +1243,8 @@ def run_c04(ctx):
     if r is not None and r.failure is not None:
         ctx.fail("abort", deep, r.failure[0] + " " + r.failure[1], site="stack-overflow", depth=200000)
     ctx.run_stream(cases, units=["passes", "cursor", "grammar"], panics_are_failures=True, per_case_timeout=1.0, case_limit_ms=15000, slow_ms=3000)
+    # the termination theorems of the search are about the search model: tied on a sample of the same cases
+    ctx.run_stream([ctx.case(c.meta["stream"] + "-s", c.text, c.cfg) for c in cases[:: ctx.n(8, 3)] if len(c.input_bytes()) < 4000], units=["search"], per_case_timeout=1.0, case_limit_ms=15000)
     ctx.oracle_counts["max_case_ms"] = getattr(ctx, "max_ms", 0)
     if not ctx.quick():
         # the plain release profile (no overflow checks): wrap-around instead of panic must not hang or crash either
@@ -1516,7 +1518,7 @@ def run_c02(ctx):
         shape = rng.choice(["const\n  C = %s%s%s;%s\n", "const\n  C: Integer = %s%s%s;%s\n  D = 2;\n", "var\n  V: Integer = %s%s%s;%s\n",
                             "type\n  TRec = record\n    F: Integer;\n  end;\nconst\n  K = %s%s%s;%s\n"])
         cases.append(ctx.case("portability", shape % (val, sep, d, trail), gen.random_cfg(rng)))
-    ctx.run_stream(cases, units=["spacing", "generics", "invariants", "relex", "lex", "comment", "lower", "recon", "grammar"])
+    ctx.run_stream(cases, units=["spacing", "generics", "invariants", "relex", "lex", "comment", "lower", "recon", "grammar", "search"])
     ctx.hypotheses["the parser is the modelled grammar (C02_parser_only_retypes is a theorem about the model)"] = "unit grammar on every case of the main stream"
     ctx.hypotheses["plan_ok: break after line comments / unterminated literals, inline comments never broken off"] = "re-scan oracle on every case (comment kinds are part of the compared token kinds)"
     ctx.hypotheses["lex_one_local (each sub-lexer depends on its own bytes plus a follow set)"] = "re-scan with the verified model lexer and with the real lexer on every case"
